@@ -55,21 +55,22 @@ type opTrace struct {
 }
 
 type schedRun struct {
-	executed []int // thread of every executed (non-blocked) step of the last phase
-	traces   []opTrace
-	cs       schedCase
-	dir      string
-	bolt     *mercure.BoltTransport
-	local    *mercure.LocalTransport
-	tr       mercure.Transport
-	subs     []*mercure.LocalSubscriber
-	recvd    [][]string
-	lines    []string
-	impl     []string
-	store    *mercure.TopicSelectorStore
-	panics   []string
-	dead     bool
-	extra    []h.Violation // oracle findings recorded while the schedule runs
+	executed   []int // thread of every executed (non-blocked) step of the last phase
+	traces     []opTrace
+	cs         schedCase
+	dir        string
+	bolt       *mercure.BoltTransport
+	local      *mercure.LocalTransport
+	tr         mercure.Transport
+	subs       []*mercure.LocalSubscriber
+	recvd      [][]string
+	lines      []string
+	impl       []string
+	store      *mercure.TopicSelectorStore
+	panics     []string
+	dead       bool
+	extra      []h.Violation // oracle findings recorded while the schedule runs
+	deadLabels []string      // what the blocked threads of a deadlocked schedule are waiting for
 }
 
 // padBolt grows the file (and hence bbolt's mmap) once, before any reader can be parked inside a read
@@ -313,10 +314,27 @@ func runSchedCaseT(c *h.Ctx, r *h.Report, cs schedCase) (trace []int, disagreed 
 		if len(ph.Pre) > 0 {
 			for _, o := range ph.Pre {
 				var ret string
-				sr.opFunc(o, &ret)()
+				func() {
+					defer func() {
+						if p := recover(); p != nil {
+							msg := fmt.Sprint(p)
+							sr.panics = append(sr.panics, msg)
+							if strings.Contains(msg, "block for ever") {
+								// sequential set-up, nobody else runs: the operation would hang
+								sr.dead = true
+								sr.deadLabels = append(sr.deadLabels, strings.TrimPrefix(msg, "send would block for ever: "))
+								sr.panics = sr.panics[:len(sr.panics)-1]
+							}
+						}
+					}()
+					sr.opFunc(o, &ret)()
+				}()
 				sr.emit(opLine(o), "ok")
 			}
 			sr.emit("sys.runall", "ok")
+		}
+		if sr.dead || len(sr.panics) > 0 {
+			break
 		}
 		// concurrent part
 		sc := verifsched.New()
@@ -473,6 +491,11 @@ func runSchedCaseT(c *h.Ctx, r *h.Report, cs schedCase) (trace []int, disagreed 
 			if unfinished > 0 && len(blockedSet) == unfinished {
 				// every unfinished thread has tried and failed to acquire its lock since the last progress
 				sr.dead = true
+				for j := range done {
+					if !done[j] {
+						sr.deadLabels = append(sr.deadLabels, label[j])
+					}
+				}
 
 				break
 			}
@@ -531,7 +554,17 @@ func runSchedCaseT(c *h.Ctx, r *h.Report, cs schedCase) (trace []int, disagreed 
 		}
 	}
 	if sr.dead {
-		r.Violate(h.Violation{Key: "C14:deadlock", What: "no operation can make progress (every unfinished thread is waiting for a lock)", Replay: rp})
+		r.Violate(h.Violation{Key: "C14:deadlock", What: fmt.Sprintf("no operation can make progress: every unfinished thread is waiting (%s)", strings.Join(sr.deadLabels, ", ")), Replay: rp})
+		for _, l := range sr.deadLabels {
+			if strings.HasSuffix(l, "<-") {
+				// not a lock: a hub operation waits for ever on a channel of a subscriber (C13: nothing a subscriber
+				// does or fails to do may block the hub; C15: such a thread also keeps Close from finishing)
+				r.Violate(h.Violation{Key: "C13:hub-operation-blocked-forever-on-a-subscriber-channel", What: "a hub operation is blocked for ever before " + l + " while every other thread waits", Replay: rp})
+				r.Violate(h.Violation{Key: "C15:hub-operation-blocked-forever-on-a-subscriber-channel", What: "a hub operation is blocked for ever before " + l + " while every other thread waits", Replay: rp})
+
+				break
+			}
+		}
 	}
 	r.Count(fmt.Sprintf("steps:%d-%d", steps/20*20, steps/20*20+19))
 
@@ -902,6 +935,13 @@ func schedOracles(sr *schedRun, obs string) (vs []h.Violation) {
 			break
 		}
 		spec := last.Subs[si]
+		// a registration that returned without error has handed over the negotiated Last-Event-ID: the
+		// HTTP handler waits for it before sending the response headers — for ever if it never comes
+		if added[si] && spec.Req != "-" && sb["resp"] == "-" {
+			for _, k := range []string{"C13", "C14", "C15"} {
+				vs = append(vs, h.Violation{Key: k + ":registered-subscriber-never-told-its-last-event-id", What: fmt.Sprintf("AddSubscriber returned without error for subscriber %d (Last-Event-ID %q) but no response id was handed over: its handler would wait for ever before sending headers, its stream is never ended", si, spec.Req)})
+			}
+		}
 		stream := append(list(sb["recv"]), list(sb["out"])...)
 		seen := map[string]bool{}
 		for _, id := range stream {
